@@ -980,3 +980,93 @@ func init() {
 	h.Prop("number_to_string", 20000, 300000, genNumStr, runNumStr)
 	h.Prop("unset_is_zero_and_empty", 2, 2, func(t *rapid.T) int { return rapid.IntRange(0, 1).Draw(t, "d") }, runUnset)
 }
+
+// ---------------------------------------------------------------------------
+// the kind of a value does not depend on which variable holds it: a string-valued special variable given a number
+// or a numeric-looking input text compares like an ordinary variable given the same
+
+type SpecialCase struct {
+	Special string `json:"special"` // SUBSEP OFS ORS FS RS
+	Route   string `json:"route"`   // vars (-v) | operand (NAME=value) | field (NAME = $1) | number (NAME = 10 in the program) | string (NAME = "10")
+	Text    string `json:"text"`
+}
+
+func enumSpecial(thorough bool, yield func(SpecialCase) bool) {
+	for _, sp := range []string{"SUBSEP", "OFS", "ORS", "FS", "RS"} {
+		for _, route := range []string{"vars", "operand", "field", "number", "string"} {
+			for _, text := range []string{"10", "9.5", "1e1", "+10", "010", "abc", "10x", "0x1A"} {
+				if route == "number" && classify(text) != mustNumeric {
+					continue
+				}
+				if (sp == "FS" || sp == "RS") && strings.HasPrefix(text, "+") {
+					continue // not a regular expression
+				}
+				if !yield(SpecialCase{sp, route, text}) {
+					return
+				}
+			}
+		}
+	}
+}
+
+func specialObserve(c SpecialCase, name string) (string, error) {
+	probe := fmt.Sprintf(`printf "%%d%%d%%d%%d %%s %%.6g\n", (%[1]s < 9), (%[1]s == 10), (%[1]s < "9"), (%[1]s >= 10.0), %[1]s, %[1]s + 0`, name)
+	cfg := &interp.Config{Stdin: strings.NewReader(""), Environ: []string{}}
+	var src string
+	switch c.Route {
+	case "vars":
+		cfg.Vars = []string{name, c.Text}
+		src = "BEGIN { " + probe + " }"
+	case "operand":
+		cfg.Args = []string{name + "=" + c.Text, "-"}
+		cfg.Stdin = strings.NewReader("x\n")
+		src = "NR == 1 { " + probe + " }"
+	case "field":
+		cfg.Stdin = strings.NewReader(c.Text + "\n")
+		src = "NR == 1 { " + name + " = $1; " + probe + " }"
+	case "number":
+		src = "BEGIN { " + name + " = " + c.Text + "; " + probe + " }"
+	default:
+		src = "BEGIN { " + name + " = " + awk.QuoteStr(c.Text) + "; " + probe + " }"
+	}
+	prog, err := parser.ParseProgram([]byte(src), nil)
+	if err != nil {
+		return "", fmt.Errorf("harness: %v\n%s", err, src)
+	}
+	var out bytes.Buffer
+	cfg.Output, cfg.Error = &out, &out
+	if _, err := interp.ExecProgram(prog, cfg); err != nil {
+		return "", fmt.Errorf("run-time error: %v\n%s", err, src)
+	}
+	return out.String(), nil
+}
+
+func runSpecial(x *h.Ctx, c SpecialCase) string {
+	if c.Route != "number" && c.Route != "string" && classify(c.Text) == dontCare {
+		x.Discard("don't-care text")
+		return ""
+	}
+	want, err := specialObserve(c, "plain_")
+	if err != nil {
+		return err.Error()
+	}
+	got, err := specialObserve(c, c.Special)
+	if err != nil {
+		return err.Error()
+	}
+	x.Class("route-" + c.Route)
+	if got == want {
+		x.Nontrivial("")
+		return ""
+	}
+	numericKind := c.Route == "number" || c.Route != "string" && classify(c.Text) == mustNumeric
+	if numericKind && h.KFOpen("KF-C05-4") {
+		x.Excluded("KF-C05-4")
+		return ""
+	}
+	return fmt.Sprintf("%s given %q (%s) behaves differently from an ordinary variable given the same\ncolumns: (v < 9)(v == 10)(v < \"9\")(v >= 10.0) v v+0\nordinary variable: %q\n%s: %q", c.Special, c.Text, c.Route, want, c.Special, got)
+}
+
+func init() {
+	h.Enum("special_variables_keep_value_kind", enumSpecial, runSpecial)
+}
